@@ -50,7 +50,7 @@ inductive Stmt where
   | store (site a : Nat) (i v : Expr)    -- a[i] = v on an integer array
   | touch (site a : Nat) (i : Expr)      -- read or write of a float array cell: bounds only
   | push (a : Nat) (v : Expr)
-  | pop (site a : Nat)                   -- pop_back / pop / front on an empty container is an error
+  | pop (site a : Nat)                   -- pop_back / pop: removes *some* element; on an empty container an error
   | clear (a : Nat)
   | forRange (x : Nat) (lo hi : Expr) (body : Stmt)   -- `for x in range(lo, hi)`, bounds evaluated once
   | while (c : Cond) (body : Stmt)
@@ -62,37 +62,44 @@ deriving Repr, Inhabited
 
 structure State where
   dims : Nat → Nat
-  vars : Nat → Int
+  vars : Nat → Option Int                -- `none`: not assigned yet
   arrs : Nat → List Int
   orc : Nat → Nat → Int                  -- the oracle: every uninterpreted value / test
   tick : Nat
 
 def State.setVar (σ : State) (x : Nat) (v : Int) : State :=
-  { σ with vars := fun y => if y = x then v else σ.vars y }
+  { σ with vars := fun y => if y = x then some v else σ.vars y }
 
 def State.setArr (σ : State) (a : Nat) (l : List Int) : State :=
   { σ with arrs := fun b => if b = a then l else σ.arrs b }
 
 def State.step (σ : State) : State := { σ with tick := σ.tick + 1 }
 
+inductive Err where
+  | oob (site : Nat)                      -- an access outside an array, at this site
+  | uninit (x : Nat)                      -- a variable read before any assignment
+deriving Repr, DecidableEq
+
 inductive Res where
   | ok (σ : State)
   | done                                  -- `return`, or a path that ended
-  | oob (site : Nat)                      -- an access outside an array, at this site
+  | err (e : Err)
   | fuel                                  -- the step budget of the interpreter ran out
 
 /-- `0 ≤ v < length` -/
 def inb (v : Int) (l : List Int) : Bool := decide (0 ≤ v) && decide (v < (l.length : Int))
 
-def evalE (σ : State) : Expr → Except Nat Int
+def evalE (σ : State) : Expr → Except Err Int
   | .const c => .ok c
-  | .var x => .ok (σ.vars x)
+  | .var x => match σ.vars x with
+    | some v => .ok v
+    | none => .error (.uninit x)
   | .dim d => .ok (σ.dims d : Int)
   | .size a => .ok ((σ.arrs a).length : Int)
   | .load s a i =>
     match evalE σ i with
     | .error e => .error e
-    | .ok v => if inb v (σ.arrs a) then .ok ((σ.arrs a).getD v.toNat 0) else .error s
+    | .ok v => if inb v (σ.arrs a) then .ok ((σ.arrs a).getD v.toNat 0) else .error (.oob s)
   | .add a b =>
     match evalE σ a with
     | .error e => .error e
@@ -106,14 +113,14 @@ def evalE (σ : State) : Expr → Except Nat Int
       | .error e => .error e
       | .ok y => .ok (x - y)
 
-def cmp2 (σ : State) (a b : Expr) (f : Int → Int → Bool) : Except Nat Bool :=
+def cmp2 (σ : State) (a b : Expr) (f : Int → Int → Bool) : Except Err Bool :=
   match evalE σ a with
   | .error e => .error e
   | .ok x => match evalE σ b with
     | .error e => .error e
     | .ok y => .ok (f x y)
 
-def evalC (σ : State) : Cond → Except Nat Bool
+def evalC (σ : State) : Cond → Except Err Bool
   | .lt a b => cmp2 σ a b (fun x y => decide (x < y))
   | .le a b => cmp2 σ a b (fun x y => decide (x ≤ y))
   | .eq a b => cmp2 σ a b (fun x y => decide (x = y))
@@ -122,7 +129,7 @@ def evalC (σ : State) : Cond → Except Nat Bool
   | .acc s a i rest =>
     match evalE σ i with
     | .error e => .error e
-    | .ok v => if inb v (σ.arrs a) then evalC σ rest else .error s
+    | .ok v => if inb v (σ.arrs a) then evalC σ rest else .error (.oob s)
   | .and c d =>
     match evalC σ c with
     | .error e => .error e
@@ -157,7 +164,7 @@ def exec : Nat → Stmt → State → Res
       | r => r
     | .assign x e =>
       match evalE σ e with
-      | .error site => .oob site
+      | .error e => .err e
       | .ok v => .ok (σ.setVar x v)
     | .havoc x => .ok ((σ.setVar x (σ.orc σ.tick 0)).step)
     | .pick x a =>
@@ -166,31 +173,33 @@ def exec : Nat → Stmt → State → Res
       | some v => .ok ((σ.setVar x v).step)
     | .store site a i v =>
       match evalE σ i with
-      | .error e => .oob e
+      | .error e => .err e
       | .ok iv =>
         match evalE σ v with
-        | .error e => .oob e
-        | .ok vv => if inb iv (σ.arrs a) then .ok (σ.setArr a ((σ.arrs a).set iv.toNat vv)) else .oob site
+        | .error e => .err e
+        | .ok vv => if inb iv (σ.arrs a) then .ok (σ.setArr a ((σ.arrs a).set iv.toNat vv)) else .err (.oob site)
     | .touch site a i =>
       match evalE σ i with
-      | .error e => .oob e
-      | .ok iv => if inb iv (σ.arrs a) then .ok σ else .oob site
+      | .error e => .err e
+      | .ok iv => if inb iv (σ.arrs a) then .ok σ else .err (.oob site)
     | .push a v =>
       match evalE σ v with
-      | .error e => .oob e
+      | .error e => .err e
       | .ok vv => .ok (σ.setArr a (σ.arrs a ++ [vv]))
-    | .pop site a => if (σ.arrs a).isEmpty then .oob site else .ok (σ.setArr a (σ.arrs a).dropLast)
+    | .pop site a =>
+      if (σ.arrs a).isEmpty then .err (.oob site)
+      else .ok ((σ.setArr a ((σ.arrs a).eraseIdx ((σ.orc σ.tick 0).toNat % (σ.arrs a).length))).step)
     | .clear a => .ok (σ.setArr a [])
     | .forRange x lo hi body =>
       match evalE σ lo with
-      | .error e => .oob e
+      | .error e => .err e
       | .ok l =>
         match evalE σ hi with
-        | .error e => .oob e
+        | .error e => .err e
         | .ok h => iter (exec f body) x (h - l).toNat l σ
     | .while c body =>
       match evalC σ c with
-      | .error e => .oob e
+      | .error e => .err e
       | .ok false => .ok σ.step
       | .ok true =>
         match exec f body σ.step with
@@ -198,7 +207,7 @@ def exec : Nat → Stmt → State → Res
         | r => r
     | .ite c s t =>
       match evalC σ c with
-      | .error e => .oob e
+      | .error e => .err e
       | .ok true => exec f s σ.step
       | .ok false => exec f t σ.step
     | .ret => .done
